@@ -108,6 +108,16 @@ def main : IO Unit := do
     IO.println s!"callback_missing\t{d c.method}\t{d c.target}\t{",".intercalate (c.locks.map d)}"
   for w in table.wiring do
     IO.println s!"wire\t{d w.obj}\t{d w.field}\t{d w.targetObj}\t{d w.targetMethod}\t{modelWiring.contains w}"
+  IO.println s!"one_critical_section\t{oneCriticalSection table}"
+  for q in table.acquires.filter (fun q => (table.acquires.filter (fun q' => q'.method == q.method)).length != 1) do
+    IO.println s!"split_section\t{d q.method}\ttakes more than one lock_guard ({d q.lock})"
+  for c in table.calls.filter (fun c => c.kind == n% "method" && guarded table c.method && c.locks.isEmpty) do
+    IO.println s!"split_section\t{d c.method}\tcalls {d c.target} outside its lock_guard (a second critical section)"
+  for a in table.accesses.filter (fun a => guarded table a.method && a.locks.isEmpty && !a.atomic && !hasName initOnly a.field) do
+    IO.println s!"split_section\t{d a.method}\t{if a.write then "writes" else "reads"} {d a.field} outside its lock_guard"
+  for c in table.calls.filter (fun c => c.kind == n% "method" && !guarded table c.method && guarded table c.target &&
+      (table.calls.filter (fun c' => c'.kind == n% "method" && c'.method == c.method)).length != 1) do
+    IO.println s!"split_section\t{d c.method}\tforwards to more than one guarded method ({d c.target})"
   for q in table.acquires.filter (fun q => !q.held.isEmpty) do
     IO.println s!"nested_guard\t{d q.method}\t{d q.lock}\t{",".intercalate (q.held.map d)}"
   for a in table.accesses.filter (fun a => a.method == n% "Interpreter.Run" && !a.atomic) do
@@ -144,11 +154,11 @@ def run_analysis():
     if rc != 0:
         raise RuntimeError("analysis script failed:\n" + out[-3000:])
     res = {"races": [], "edges": [], "backedges": [], "unresolved": [], "unclassified": [], "initonly_writes": [],
-           "edge_witness": {}, "callbacks": [], "callbacks_missing": [], "wires": [], "nested_guards": [], "run_nonatomic": [], "flags": {}}
+           "edge_witness": {}, "callbacks": [], "callbacks_missing": [], "wires": [], "nested_guards": [], "run_nonatomic": [], "split_sections": [], "flags": {}}
     for line in out.split("\n"):
         t = line.split("\t")
         k = t[0]
-        if k in ("closed", "fuel_ok", "entries_classified", "initonly_unwritten", "actions_justified", "order_ok"):
+        if k in ("closed", "fuel_ok", "entries_classified", "initonly_unwritten", "actions_justified", "order_ok", "one_critical_section"):
             res["flags"][k] = t[1] == "true"
         elif k in ("visits", "races_outside_known"):
             res[k] = int(t[1])
@@ -175,6 +185,9 @@ def run_analysis():
             res["callbacks_missing"].append({"method": t[1], "target": t[2], "locks": t[3]})
         elif k == "wire":
             res["wires"].append({"obj": t[1], "field": t[2], "target": t[3] + "." + t[4], "as_modelled": t[5] == "true"})
+        elif k == "split_section":
+            if t[1:] not in res["split_sections"]:
+                res["split_sections"].append(t[1:])
         elif k == "nested_guard":
             res["nested_guards"].append(t[1:])
         elif k == "run_nonatomic":
@@ -280,6 +293,16 @@ def tsan_confirm(kind, iters=2000):
     return {"op": "conc race %s %x" % (kind, iters), "tsan_reports": n, "frames": frames[:20], "stdout": p.stdout.strip()[-80:]}
 
 
+def lostwake_search(ms):
+    """Search the real code (plain harness build, two threads) for a lost wake-up of the send path."""
+    exe = vlib.harness_build("plain")
+    op = "conc lostwake %x %x" % (50_000_000, ms)
+    p = subprocess.run([exe], input=op + "\n", stdout=subprocess.PIPE, stderr=subprocess.PIPE, text=True, timeout=ms / 1000 + 120)
+    t = p.stdout.strip().split()
+    return {"op": op, "response": p.stdout.strip()[-120:], "lost": bool(t) and t[0] == "lost",
+            "round": int(t[1], 16) if len(t) > 1 else None}
+
+
 def explore(rng, tier, replay=None):
     violations = []
     data = json.load(open(GEN_JSON if os.path.exists(GEN_JSON) else GOLDEN_JSON))
@@ -348,8 +371,39 @@ def explore(rng, tier, replay=None):
                             ["wiring %s.%s = %s" % (w["obj"], w["field"], w["target"]) for w in badw] +
                             ["nested lock_guard in %s" % n[0] for n in an["nested_guards"]] +
                             ["non-atomic latch access in Interpreter::Run: %s" % n[0] for n in an["run_nonatomic"]]))
-        violations.append((desc, {"kind": "model", "callbacks": an["callbacks"], "wires": an["wires"]}, False))
+        found = False
+        rep = {"kind": "model", "callbacks": an["callbacks"], "wires": an["wires"], "split_sections": an["split_sections"],
+               "theorem": "Teakra.Lock.actions_justified"}
+        if an["split_sections"]:
+            desc = desc.rstrip("; ") + " " + "; ".join("%s %s" % tuple(x[:2]) for x in an["split_sections"])
+        if any(x[0] in ("DataChannel.Send", "Apbp.SendData", "DataChannel.SetDisableInterrupt", "DataChannel.IsReady")
+               for x in an["split_sections"]):
+            try:
+                lw = lostwake_search(20000 if tier == "quick" else 120000)
+            except Exception as ex:      # noqa: BLE001
+                lw = {"error": str(ex)[-300:], "lost": False}
+            rep["lostwake_search"] = lw
+            if lw.get("lost"):
+                found = True
+                rep.update({"kind": "schedule", "finding": "lostwake", "schedule": [
+                    "quiescent: mailbox 0 empty, MMIO 0x0D4 = 0x100 (interrupt disabled), ICU requests acknowledged",
+                    "host thread: Teakra::SendData(0, v)   ||   DSP side: MMIO write 0x0D4 := 0 (enable), then one read of 0x0D6 (ready bit)",
+                    "afterwards: the word is in the mailbox, the interrupt is enabled, the poll made after enabling saw 'empty', "
+                    "and ICU request 0xE was never raised (round %s of `%s`)" % (lw.get("round"), lw["op"])]})
+                desc += " - LOST WAKE-UP exhibited on the implementation: a send completed with the interrupt enabled and no interrupt was delivered"
+        violations.append((desc, rep, found))
     pairs = an.get("host_accesses", 0) * an.get("accesses", 0)
+    lw_clean = None
+    if tier == "thorough" and fl.get("actions_justified", False):
+        # supporting evidence only: the atomicity of Send is what `actions_justified` + the Conc theorems establish
+        try:
+            lw_clean = lostwake_search(15000)
+            if lw_clean["lost"]:
+                violations.append(("lost wake-up on the implementation although the table checks pass: " + lw_clean["response"],
+                                   {"kind": "schedule", "finding": "lostwake", "lostwake_search": lw_clean,
+                                    "schedule": ["host SendData(0,v) || DSP MMIO 0x0D4:=0; read 0x0D6", lw_clean["response"]]}, True))
+        except Exception as ex:      # noqa: BLE001
+            lw_clean = {"error": str(ex)[-300:]}
     ctx = {
         "evaluations": pairs,
         "distinct_nontrivial": len(an["races"]),
@@ -364,7 +418,8 @@ def explore(rng, tier, replay=None):
             "races": len(an["races"]), "race_groups": [g["fields"] for g in groups],
             "races_outside_knownRacy": an.get("races_outside_known"),
             "lock_edges": ["%s -> %s" % e for e in an["edges"]], "lock_order": an.get("order"),
-            "back_edges": len(an["backedges"]), "flags": fl, "golden_agreement": ginfo},
+            "back_edges": len(an["backedges"]), "flags": fl, "golden_agreement": ginfo,
+            "split_sections": an["split_sections"], "lostwake_stress": lw_clean},
         "samples": [v[1]["schedule"] for v in violations if "schedule" in v[1]][:3],
         "unmodelled": [],
         "violations": violations,
@@ -397,6 +452,13 @@ def replay(rep):
                       % (r["op"], r["tsan_reports"], ", ".join(r["frames"][:8])))
             except Exception as ex:      # noqa: BLE001
                 print("ThreadSanitizer run failed: %s" % str(ex)[-300:])
+    elif rep.get("finding") == "lostwake":
+        lw = lostwake_search(60000)
+        print("schedule:")
+        for x in rep.get("schedule", []):
+            print("  " + x)
+        print("`%s` on the current tree -> %s" % (lw["op"], lw["response"]))
+        rc = 1 if lw["lost"] else 0
     elif rep.get("finding") == "deadlock":
         e = rep.get("edge", {})
         still = [b for b in an["backedges"] if b["held"] == e.get("held") and b["acquired"] == e.get("acquired")]
